@@ -13,13 +13,24 @@ N == Cardinality(Muts)
 Perms == {s \in [1..N -> Muts] : \A i, j \in 1..N : i # j => s[i] # s[j]}
 Init0 == [name |-> "v0", tag |-> "v0"]
 RECURSIVE Serial(_, _, _)
-Serial(r, s, i) == IF i > N THEN r ELSE Serial([r EXCEPT ![Ev.muts[s[i]].field] = Ev.muts[s[i]].val], s, i + 1)
+Apply(r, m) == IF Ev.muts[m].field = "none" THEN r ELSE [r EXCEPT ![Ev.muts[m].field] = Ev.muts[m].val]
+Serial(r, s, i) == IF i > N THEN r ELSE Serial(Apply(r, s[i]), s, i + 1)
+\* the final row the pipeline gives as it is (Pipeline.tla with the listed deviation): a mutation that assigns a field writes the row
+\* it read with that field replaced; a mutation that changes nothing writes nothing
+RECURSIVE AsIs(_, _, _)
+AsIs(r, snaps, i) ==
+    IF i > Len(Ev.order) THEN r
+    ELSE LET st == Ev.order[i]
+         IN IF st.ph = "R" THEN AsIs(r, [snaps EXCEPT ![st.m] = Apply(r, st.m)], i + 1)
+            ELSE IF st.ph = "W" /\ Ev.muts[st.m].field # "none" THEN AsIs(snaps[st.m], snaps, i + 1)
+            ELSE AsIs(r, snaps, i + 1)
+AsIsFinal == AsIs(Init0, [m \in Muts |-> Init0], 1)
 SerialOutcomes == {Serial(Init0, s, 1) : s \in Perms}
 Pos(ph, m) == CHOOSE i \in DOMAIN Ev.order : Ev.order[i].ph = ph /\ Ev.order[i].m = m
 \* a mutation was read while another one was between its read and its write
 Overlap == \E m, n \in Muts : m # n /\ Pos("R", n) < Pos("R", m) /\ Pos("R", m) < Pos("W", n)
 Problems == (IF Ev.problems # <<>> THEN {<<"phase-error", "x">>} ELSE {})
-            \cup (IF Ev.final \notin SerialOutcomes THEN {<<"not-serializable", IF Overlap THEN "StaleSnapshotWrittenBack" ELSE "none">>} ELSE {})
+            \cup (IF Ev.final \notin SerialOutcomes THEN {<<"not-serializable", IF Overlap /\ Ev.final = AsIsFinal THEN "StaleSnapshotWrittenBack" ELSE "none">>} ELSE {})
 Step == /\ l <= Len(Rec) /\ Ev.ev = "run" /\ l' = l + 1
         /\ bad' = bad \cup {<<"UNEXPLAINED", o[1]>> : o \in {x \in Problems : x[2] \notin KNOWN}}
         /\ devs' = devs \cup {o[2] : o \in {x \in Problems : x[2] \in KNOWN}}
